@@ -226,6 +226,10 @@ func (p *protocol) handleTransactionPayload(ctx context.Context, connection grpc
 	}
 
 	// it's saved, remove the job
+	if p.privatePayloadReceiver == nil {
+		// payload scheduler is not running (node DID not set), so there is no job to remove
+		return nil
+	}
 	return p.privatePayloadReceiver.Finished(ref)
 }
 
